@@ -16,6 +16,10 @@
 (*                                 RegisterInterface:351)                   *)
 (*   "TeardownLeavesListenerOpen" teardown (148) forgets the listener      *)
 (*                                 without closing it                       *)
+(*   "HandlersIgnoreContext"      a connection's reads do not see the       *)
+(*                                 serving call's context (never true of    *)
+(*                                 the code; shows CancelEndsConnections    *)
+(*                                 is not vacuous)                          *)
 (* Properties: C14 (shutdown, draining, reuse), C15 (idle timeout),        *)
 (* C13 (registration), C16 (NoRace).                                       *)
 (***************************************************************************)
@@ -36,6 +40,7 @@ VARIABLES
   counter,   \* s.conncounter
   wg,        \* the serving call's WaitGroup
   names,     \* s.names (registration order)
+  cancelled, \* the context the current serving call was given has been cancelled
   spc,       \* pc of the serving thread
   sl,        \* the serving call's local copy of the listener
   tmo,       \* the serving call was started with a non-zero timeout
@@ -57,7 +62,7 @@ VARIABLES
   g_servedEp,    \* listener id the current/last serving call served on
   g_regs         \* sequence of successful registrations
 
-vars == <<running, listener, lstate, nextid, counter, wg, names, spc, sl, tmo, acc, sret, rounds, expiries,
+vars == <<running, listener, lstate, nextid, counter, wg, names, cancelled, spc, sl, tmo, acc, sret, rounds, expiries,
           cst, cl, sdpc, bdpc, rgpc, rgarg, rgret, gate, g_sdWaiting, g_sdDoneAt, g_servedEp, g_regs>>
 
 Locked == "UnlockedRunning" \notin Dev
@@ -69,7 +74,7 @@ Init ==
   /\ rounds = 0 /\ expiries = 0
   /\ cst = [c \in Clients |-> "idle"] /\ cl = [c \in Clients |-> 0]
   /\ sdpc = "idle" /\ bdpc = "idle" /\ rgpc = "idle" /\ rgarg = "" /\ rgret = "none"
-  /\ gate = FALSE
+  /\ gate = FALSE /\ cancelled = FALSE
   /\ g_sdWaiting = FALSE /\ g_sdDoneAt = {} /\ g_servedEp = 0 /\ g_regs = <<>>
 
 ---------------------------------------------------------------------------
@@ -80,7 +85,7 @@ B_Check ==          \* 232-237, locked
   /\ bdpc = "idle" /\ nextid <= MaxBinds
   /\ spc = "idle" \/ (spc \notin {"getl", "setrun"} /\ running)
   /\ bdpc' = IF running THEN "refused" ELSE "checked"
-  /\ UNCHANGED <<running, listener, lstate, nextid, counter, wg, names, spc, sl, tmo, acc, sret, rounds, expiries,
+  /\ UNCHANGED <<running, listener, lstate, nextid, counter, wg, names, cancelled, spc, sl, tmo, acc, sret, rounds, expiries,
                  cst, cl, sdpc, rgpc, rgarg, rgret, gate, g_sdWaiting, g_sdDoneAt, g_servedEp, g_regs>>
 B_Set ==            \* 239-215: parse, listen, install (210-212 locked)
   /\ bdpc = "checked"
@@ -89,22 +94,23 @@ B_Set ==            \* 239-215: parse, listen, install (210-212 locked)
   /\ nextid' = nextid + 1
   /\ bdpc' = "done"
   /\ sdpc' = IF sdpc = "done" THEN "idle" ELSE sdpc       \* a new endpoint: earlier Shutdowns do not concern it
-  /\ UNCHANGED <<running, counter, wg, names, spc, sl, tmo, acc, sret, rounds, expiries,
+  /\ UNCHANGED <<running, counter, wg, names, cancelled, spc, sl, tmo, acc, sret, rounds, expiries,
                  cst, cl, rgpc, rgarg, rgret, gate, g_sdWaiting, g_sdDoneAt, g_servedEp, g_regs>>
 B_Again ==          \* the caller may bind again later
   /\ bdpc \in {"done", "refused"}
   /\ bdpc' = "idle"
-  /\ UNCHANGED <<running, listener, lstate, nextid, counter, wg, names, spc, sl, tmo, acc, sret, rounds, expiries,
+  /\ UNCHANGED <<running, listener, lstate, nextid, counter, wg, names, cancelled, spc, sl, tmo, acc, sret, rounds, expiries,
                  cst, cl, sdpc, rgpc, rgarg, rgret, gate, g_sdWaiting, g_sdDoneAt, g_servedEp, g_regs>>
 
 ---------------------------------------------------------------------------
 (* The serving call: DoListen 296-342 (Listen 249-293 = Bind + the same loop) *)
-SUnch == UNCHANGED <<lstate, nextid, names, rounds, expiries, cst, cl, sdpc, bdpc, rgpc, rgarg, rgret, g_regs>>
+SUnch == UNCHANGED <<lstate, nextid, names, cancelled, rounds, expiries, cst, cl, sdpc, bdpc, rgpc, rgarg, rgret, g_regs>>
 
 ServeStart(t, g) == \* the application calls DoListen(ctx, timeout)
   /\ spc = "idle" /\ rounds < MaxRounds /\ bdpc # "checked"
   /\ spc' = "getl" /\ tmo' = t /\ gate' = g /\ rounds' = rounds + 1 /\ sret' = "none"
   /\ g_sdWaiting' = FALSE /\ g_sdDoneAt' = {}
+  /\ cancelled' = FALSE
   /\ UNCHANGED <<running, listener, lstate, nextid, counter, wg, names, sl, acc, expiries, cst, cl,
                  sdpc, bdpc, rgpc, rgarg, rgret, g_servedEp, g_regs>>
 
@@ -142,14 +148,14 @@ L_AcceptConn(c) ==
   /\ cst[c] = "queued" /\ cl[c] = sl
   /\ cst' = [cst EXCEPT ![c] = "accepted"]
   /\ spc' = "inc" /\ acc' = c
-  /\ UNCHANGED <<running, listener, lstate, nextid, counter, wg, names, sl, tmo, sret, rounds, expiries, cl,
+  /\ UNCHANGED <<running, listener, lstate, nextid, counter, wg, names, cancelled, sl, tmo, sret, rounds, expiries, cl,
                  sdpc, bdpc, rgpc, rgarg, rgret, gate, g_sdWaiting, g_sdDoneAt, g_servedEp, g_regs>>
 L_AcceptTimeout ==  \* the accept deadline expired
   /\ spc = "accept" /\ lstate[sl] = "open" /\ tmo
   /\ expiries < MaxTimeouts
   /\ expiries' = expiries + 1
   /\ spc' = "tcheck"
-  /\ UNCHANGED <<running, listener, lstate, nextid, counter, wg, names, sl, tmo, acc, sret, rounds, cst, cl,
+  /\ UNCHANGED <<running, listener, lstate, nextid, counter, wg, names, cancelled, sl, tmo, acc, sret, rounds, cst, cl,
                  sdpc, bdpc, rgpc, rgarg, rgret, gate, g_sdWaiting, g_sdDoneAt, g_servedEp, g_regs>>
 L_AcceptClosed ==   \* the listener was closed: Accept fails with a non-timeout error
   /\ spc = "accept" /\ lstate[sl] = "closed"
@@ -174,7 +180,7 @@ L_Spawn ==          \* 337-338: wg.Add(1); go handleConnection
   /\ wg' = wg + 1
   /\ cst' = [cst EXCEPT ![acc] = "handled"]
   /\ spc' = "check"
-  /\ UNCHANGED <<running, listener, lstate, nextid, counter, names, sl, tmo, acc, sret, rounds, expiries, cl,
+  /\ UNCHANGED <<running, listener, lstate, nextid, counter, names, cancelled, sl, tmo, acc, sret, rounds, expiries, cl,
                  sdpc, bdpc, rgpc, rgarg, rgret, gate, g_sdWaiting, g_sdDoneAt, g_servedEp, g_regs>>
 
 T_Teardown ==       \* 148-155 (deferred), locked
@@ -184,7 +190,7 @@ T_Teardown ==       \* 148-155 (deferred), locked
      ELSE lstate' = [lstate EXCEPT ![listener] = "closed"]       \* design: release the endpoint on every exit
   /\ listener' = 0 /\ running' = FALSE
   /\ spc' = "wait"
-  /\ UNCHANGED <<nextid, counter, wg, names, sl, tmo, acc, sret, rounds, expiries, cst, cl,
+  /\ UNCHANGED <<nextid, counter, wg, names, cancelled, sl, tmo, acc, sret, rounds, expiries, cst, cl,
                  sdpc, bdpc, rgpc, rgarg, rgret, gate, g_sdWaiting, g_sdDoneAt, g_servedEp, g_regs>>
 T_Wait ==           \* wg.Wait()
   /\ spc = "wait" /\ wg = 0
@@ -201,12 +207,18 @@ H_Exit(c) ==        \* 126 (deferred): locked counter--, wg.Done()
   /\ cst[c] = "ended"
   /\ cst' = [cst EXCEPT ![c] = "released"]
   /\ counter' = counter - 1 /\ wg' = wg - 1
-  /\ UNCHANGED <<running, listener, lstate, nextid, names, spc, sl, tmo, acc, sret, rounds, expiries, cl,
+  /\ UNCHANGED <<running, listener, lstate, nextid, names, cancelled, spc, sl, tmo, acc, sret, rounds, expiries, cl,
+                 sdpc, bdpc, rgpc, rgarg, rgret, gate, g_sdWaiting, g_sdDoneAt, g_servedEp, g_regs>>
+
+H_CtxEnd(c) ==      \* 132: ReadBytes(ctx) returns the context's error (or a handler's I/O does): the loop breaks
+  /\ cancelled /\ cst[c] = "handled" /\ "HandlersIgnoreContext" \notin Dev
+  /\ cst' = [cst EXCEPT ![c] = "ended"]
+  /\ UNCHANGED <<running, listener, lstate, nextid, counter, wg, names, cancelled, spc, sl, tmo, acc, sret, rounds, expiries, cl,
                  sdpc, bdpc, rgpc, rgarg, rgret, gate, g_sdWaiting, g_sdDoneAt, g_servedEp, g_regs>>
 
 ---------------------------------------------------------------------------
 (* Shutdown 115-123 *)
-SdUnch == UNCHANGED <<nextid, counter, wg, names, spc, sl, tmo, acc, sret, rounds, expiries, cst, cl,
+SdUnch == UNCHANGED <<nextid, counter, wg, names, cancelled, spc, sl, tmo, acc, sret, rounds, expiries, cst, cl,
                       bdpc, rgpc, rgarg, rgret, gate, g_servedEp, g_regs>>
 CloseL == IF listener = 0 THEN UNCHANGED lstate ELSE lstate' = [lstate EXCEPT ![listener] = "closed"]
 
@@ -234,7 +246,7 @@ S_Again ==
 
 ---------------------------------------------------------------------------
 (* RegisterInterface 345-359 *)
-RUnch == UNCHANGED <<running, listener, lstate, nextid, counter, wg, spc, sl, tmo, acc, sret, rounds, expiries, cst, cl,
+RUnch == UNCHANGED <<cancelled, running, listener, lstate, nextid, counter, wg, spc, sl, tmo, acc, sret, rounds, expiries, cst, cl,
                      sdpc, bdpc, gate, g_sdWaiting, g_sdDoneAt, g_servedEp>>
 InNames(i) == \E k \in 1..Len(names) : names[k] = i
 R_Start(i) ==
@@ -254,7 +266,7 @@ R_Again ==
 
 ---------------------------------------------------------------------------
 (* clients *)
-CUnch == UNCHANGED <<running, listener, lstate, nextid, counter, wg, names, spc, sl, tmo, acc, sret, rounds, expiries,
+CUnch == UNCHANGED <<running, listener, lstate, nextid, counter, wg, names, cancelled, spc, sl, tmo, acc, sret, rounds, expiries,
                      sdpc, bdpc, rgpc, rgarg, rgret, gate, g_sdWaiting, g_servedEp, g_regs>>
 Connect(c) ==       \* a client connects to the endpoint currently bound (the backlog takes it)
   /\ cst[c] = "idle" /\ listener # 0 /\ lstate[listener] = "open"
@@ -267,11 +279,18 @@ EndClient(c) ==     \* the connection ends: orderly close, abort, handler error 
   /\ cst' = [cst EXCEPT ![c] = "ended"]
   /\ UNCHANGED <<cl, g_sdDoneAt>> /\ CUnch
 
+CtxCancel ==        \* the application cancels the context it gave to the serving call: every connection of
+                    \* that call ends (H_CtxEnd); the accept loop itself does not look at the context
+  /\ spc # "idle" /\ ~cancelled
+  /\ cancelled' = TRUE
+  /\ UNCHANGED <<running, listener, lstate, nextid, counter, wg, names, spc, sl, tmo, acc, sret, rounds, expiries, cst, cl,
+                 sdpc, bdpc, rgpc, rgarg, rgret, gate, g_sdWaiting, g_sdDoneAt, g_servedEp, g_regs>>
+
 ---------------------------------------------------------------------------
 SrvNext == D_GetL \/ L_SetRunning \/ L_Check \/ L_Refresh \/ L_AcceptClosed \/ L_Timeout \/ L_AccErr
            \/ L_Inc \/ L_Spawn \/ T_Teardown \/ T_Wait \/ T_Return
            \/ \E c \in Clients : L_AcceptConn(c)
-HNext == \E c \in Clients : H_Exit(c)
+HNext == \E c \in Clients : H_Exit(c) \/ H_CtxEnd(c)
 SdNext == S_All \/ S_Clear \/ S_Close
 EnvNext == \/ \E t, g \in BOOLEAN : ServeStart(t, g /\ t)
            \/ ReleaseGate \/ L_AcceptTimeout
@@ -279,12 +298,15 @@ EnvNext == \/ \E t, g \in BOOLEAN : ServeStart(t, g /\ t)
            \/ B_Check \/ B_Set \/ B_Again \/ S_Again
            \/ \E i \in Ifaces : R_Start(i)
            \/ R_Insert \/ R_Again
+           \/ CtxCancel
 Next == SrvNext \/ HNext \/ SdNext \/ EnvNext
 
 Fairness == /\ WF_vars(SrvNext) /\ WF_vars(HNext) /\ WF_vars(SdNext)
             /\ \A c \in Clients : WF_vars(EndClient(c))      \* every connection eventually ends
             /\ WF_vars(ReleaseGate)
 Spec == Init /\ [][Next]_vars /\ Fairness
+(* without the assumption that clients end their connections by themselves: what a cancelled context must achieve alone *)
+SpecSvcOnly == Init /\ [][Next]_vars /\ WF_vars(SrvNext) /\ WF_vars(HNext) /\ WF_vars(SdNext) /\ WF_vars(ReleaseGate)
 
 ---------------------------------------------------------------------------
 TypeOK ==
@@ -320,6 +342,11 @@ EndpointReleased == (spc \in {"return"} /\ g_servedEp # 0) => lstate[g_servedEp]
 RegistrationOrder == names = <<"org.varlink.service">> \o g_regs
 NoDupNames == \A i, j \in 1..Len(names) : i # j => names[i] # names[j]
 RefusedWhileServing == (rgpc = "done" /\ rgret = "ok") => TRUE
+
+(* C14: a cancelled context ends every connection of the serving call, and each is accounted for; *)
+(* the serving call itself keeps accepting until Shutdown                                          *)
+CancelEndsConnections == \A c \in Clients : (cancelled /\ cst[c] = "handled") ~> (cst[c] = "released")
+CancelAloneDoesNotStop == [][(spc = "accept" /\ spc' # "accept" /\ cancelled /\ lstate[sl] = "open") => spc' \in {"inc", "tcheck"}]_vars
 
 (* C14 liveness: Shutdown always ends serving once the accepted connections have ended *)
 ShutdownEndsServing == (sdpc = "done" /\ Serving) ~> (spc \in {"return", "idle"})
